@@ -9,32 +9,14 @@ import Cellml.C10.WF
 namespace Model
 
 -- ------------------------------------------------------------------------------------------------ typeMap
-def tmAcc (acc : List (Nat × VType)) (eqs : List Eqn) : List (Nat × VType) :=
-  eqs.foldl (fun tm e => typeWrites e ++ tm) acc
+theorem typeMap_eq (eqs : List Eqn) :
+    typeMap eqs = tmAcc freeWrites (tmAcc stateWrites (tmAcc lhsWrites [] eqs) eqs) eqs := rfl
 
-theorem typeMap_eq (eqs : List Eqn) : typeMap eqs = tmAcc [] eqs := rfl
-
-theorem lookup_tmAcc (x : Nat) (ty : VType) : ∀ (eqs : List Eqn) (acc : List (Nat × VType)),
-    (tmAcc acc eqs).lookup x = some ty → (∃ e ∈ eqs, (x, ty) ∈ typeWrites e) ∨ acc.lookup x = some ty
-  | [], acc, h => .inr h
-  | e :: es, acc, h => by
-    have := lookup_tmAcc x ty es (typeWrites e ++ acc) h
-    rcases this with ⟨e', he', h'⟩ | h'
-    · exact .inl ⟨e', List.mem_cons_of_mem _ he', h'⟩
-    · rw [List.lookup_append] at h'
-      rcases hl : (typeWrites e).lookup x with _ | ty'
-      · rw [hl] at h'; exact .inr (by simpa using h')
-      · rw [hl] at h'
-        have h' : ty' = ty := by simpa using h'
-        subst h'
-        exact .inl ⟨e, List.mem_cons_self .., mem_of_lookup _ _ _ hl⟩
-
-/-- the role of a variable was written by some equation -/
-theorem tyOf_typeMap_some {eqs : List Eqn} {x : Nat} {ty : VType} (h : tyOf (typeMap eqs) x = some ty) :
-    ∃ e ∈ eqs, (x, ty) ∈ typeWrites e := by
-  rcases lookup_tmAcc x ty eqs [] h with h | h
-  · exact h
-  · simp at h
+/-- what one equation writes in the three loops together is `typeWrites` -/
+theorem mem_typeWrites (e : Eqn) (p : Nat × VType) :
+    p ∈ typeWrites e ↔ p ∈ freeWrites e ∨ p ∈ stateWrites e ∨ p ∈ lhsWrites e := by
+  unfold typeWrites freeWrites stateWrites lhsWrites
+  cases e.lhs <;> simp
 
 theorem lookup_isSome_of_mem (l : List (Nat × VType)) (x : Nat) (ty : VType) (h : (x, ty) ∈ l) :
     (l.lookup x).isSome = true := by
@@ -48,30 +30,117 @@ theorem lookup_isSome_of_mem (l : List (Nat × VType)) (x : Nat) (ty : VType) (h
       · cases h; exact absurd rfl hxa
       · simp only [List.lookup_cons, beq_ne hxa]; exact ih h
 
-theorem isSome_tmAcc (x : Nat) : ∀ (eqs : List Eqn) (acc : List (Nat × VType)),
-    ((∃ e ∈ eqs, ∃ ty, (x, ty) ∈ typeWrites e) ∨ (acc.lookup x).isSome = true) → ((tmAcc acc eqs).lookup x).isSome = true
-  | [], acc, h => by
-    rcases h with ⟨e, he, _⟩ | h
-    · cases he
-    · exact h
-  | e :: es, acc, h => by
-    refine isSome_tmAcc x es (typeWrites e ++ acc) ?_
-    rcases h with ⟨e', he', ty, h'⟩ | h
-    · rcases List.mem_cons.mp he' with rfl | he'
+/-- one type-writing loop: either some equation of the loop wrote the role found, or no equation of the loop wrote
+    a role for `x` and the role is the one from before the loop -/
+theorem lookup_tmAcc_cases (w : Eqn → List (Nat × VType)) (x : Nat) : ∀ (eqs : List Eqn) (acc : List (Nat × VType)),
+    (∃ e ∈ eqs, ∃ ty, (x, ty) ∈ w e ∧ (tmAcc w acc eqs).lookup x = some ty) ∨
+    ((∀ e ∈ eqs, ∀ ty, (x, ty) ∉ w e) ∧ (tmAcc w acc eqs).lookup x = acc.lookup x)
+  | [], acc => .inr ⟨fun _ h => (by cases h), rfl⟩
+  | e :: es, acc => by
+    rcases lookup_tmAcc_cases w x es (w e ++ acc) with ⟨e', he', ty, hm, hl⟩ | ⟨hno, hl⟩
+    · exact .inl ⟨e', List.mem_cons_of_mem _ he', ty, hm, hl⟩
+    · have hl' : (tmAcc w acc (e :: es)).lookup x = (w e ++ acc).lookup x := hl
+      rw [List.lookup_append] at hl'
+      rcases hw : (w e).lookup x with _ | ty
       · right
-        rw [List.lookup_append]
-        have := lookup_isSome_of_mem _ x ty h'
-        obtain ⟨ty', hty'⟩ := Option.isSome_iff_exists.mp this
-        simp [hty']
-      · exact .inl ⟨e', he', ty, h'⟩
-    · right
-      rw [List.lookup_append]
-      obtain ⟨ty', hty'⟩ := Option.isSome_iff_exists.mp h
-      rcases (typeWrites e).lookup x with _ | t <;> simp [hty']
+        rw [hw] at hl'
+        refine ⟨fun e' he' ty hm => ?_, by simpa using hl'⟩
+        rcases List.mem_cons.mp he' with rfl | he'
+        · have := lookup_isSome_of_mem _ x ty hm
+          rw [hw] at this; cases this
+        · exact hno e' he' ty hm
+      · left
+        rw [hw] at hl'
+        exact ⟨e, List.mem_cons_self .., ty, mem_of_lookup _ _ _ hw, by simpa using hl'⟩
+
+theorem lookup_tmAcc (w : Eqn → List (Nat × VType)) (x : Nat) (ty : VType) (eqs : List Eqn) (acc : List (Nat × VType))
+    (h : (tmAcc w acc eqs).lookup x = some ty) : (∃ e ∈ eqs, (x, ty) ∈ w e) ∨ acc.lookup x = some ty := by
+  rcases lookup_tmAcc_cases w x eqs acc with ⟨e, he, ty', hm, hl⟩ | ⟨_, hl⟩
+  · rw [h] at hl; cases hl; exact .inl ⟨e, he, hm⟩
+  · rw [h] at hl; exact .inr hl.symm
+
+theorem isSome_tmAcc (w : Eqn → List (Nat × VType)) (x : Nat) (eqs : List Eqn) (acc : List (Nat × VType))
+    (h : (∃ e ∈ eqs, ∃ ty, (x, ty) ∈ w e) ∨ (acc.lookup x).isSome = true) :
+    ((tmAcc w acc eqs).lookup x).isSome = true := by
+  rcases lookup_tmAcc_cases w x eqs acc with ⟨e, he, ty', hm, hl⟩ | ⟨hno, hl⟩
+  · rw [hl]; rfl
+  · rcases h with ⟨e, he, ty, hm⟩ | h
+    · exact absurd hm (hno e he ty)
+    · rw [hl]; exact h
+
+/-- the role of a variable was written by some equation -/
+theorem tyOf_typeMap_some {eqs : List Eqn} {x : Nat} {ty : VType} (h : tyOf (typeMap eqs) x = some ty) :
+    ∃ e ∈ eqs, (x, ty) ∈ typeWrites e := by
+  rcases lookup_tmAcc freeWrites x ty eqs _ h with ⟨e, he, hm⟩ | h
+  · exact ⟨e, he, (mem_typeWrites e _).mpr (.inl hm)⟩
+  · rcases lookup_tmAcc stateWrites x ty eqs _ h with ⟨e, he, hm⟩ | h
+    · exact ⟨e, he, (mem_typeWrites e _).mpr (.inr (.inl hm))⟩
+    · rcases lookup_tmAcc lhsWrites x ty eqs _ h with ⟨e, he, hm⟩ | h
+      · exact ⟨e, he, (mem_typeWrites e _).mpr (.inr (.inr hm))⟩
+      · simp at h
 
 theorem tyOf_typeMap_isSome {eqs : List Eqn} {e : Eqn} (he : e ∈ eqs) {x : Nat} {ty : VType}
-    (h : (x, ty) ∈ typeWrites e) : (tyOf (typeMap eqs) x).isSome = true :=
-  isSome_tmAcc x eqs [] (.inl ⟨e, he, ty, h⟩)
+    (h : (x, ty) ∈ typeWrites e) : (tyOf (typeMap eqs) x).isSome = true := by
+  unfold tyOf
+  rw [typeMap_eq]
+  rcases (mem_typeWrites e _).mp h with h | h | h
+  · exact isSome_tmAcc _ x eqs _ (.inl ⟨e, he, ty, h⟩)
+  · exact isSome_tmAcc _ x eqs _ (.inr (isSome_tmAcc _ x eqs _ (.inl ⟨e, he, ty, h⟩)))
+  · exact isSome_tmAcc _ x eqs _ (.inr (isSome_tmAcc _ x eqs _ (.inr (isSome_tmAcc _ x eqs _ (.inl ⟨e, he, ty, h⟩)))))
+
+/-- one type-writing loop gives the same role to `x` for every order of the equations, provided the equations agree
+    on the role they write for `x` -/
+theorem lookup_tmAcc_perm (w : Eqn → List (Nat × VType)) (x : Nat) {eqs eqs' : List Eqn} (hp : eqs'.Perm eqs)
+    {acc acc' : List (Nat × VType)} (hacc : acc'.lookup x = acc.lookup x)
+    (hfun : ∀ e₁ ∈ eqs, ∀ e₂ ∈ eqs, ∀ t₁ t₂, (x, t₁) ∈ w e₁ → (x, t₂) ∈ w e₂ → t₁ = t₂) :
+    (tmAcc w acc' eqs').lookup x = (tmAcc w acc eqs).lookup x := by
+  rcases lookup_tmAcc_cases w x eqs acc with ⟨e, he, t, hm, hl⟩ | ⟨hno, hl⟩ <;>
+    rcases lookup_tmAcc_cases w x eqs' acc' with ⟨e', he', t', hm', hl'⟩ | ⟨hno', hl'⟩
+  · rw [hl, hl', hfun e he e' (hp.mem_iff.mp he') t t' hm hm']
+  · exact absurd hm (hno' e (hp.mem_iff.mpr he) t)
+  · exact absurd hm' (hno e' (hp.mem_iff.mp he') t')
+  · rw [hl, hl', hacc]
+
+/-- **the roles are a function of the SET of equations** (since the `fix:` commit "the roles that come from the ODEs
+    win"): permuting `Model.equations` changes the `type` of no variable, as long as no variable is assigned both a
+    bare number and something else (`Model.graph` refuses two equations with the same left-hand side anyway) -/
+theorem tyOf_typeMap_perm {eqs eqs' : List Eqn} (hp : eqs'.Perm eqs)
+    (hfun : ∀ e₁ ∈ eqs, ∀ e₂ ∈ eqs, ∀ v, e₁.lhs = .var v → e₂.lhs = .var v → e₁.bareQuantity = e₂.bareQuantity)
+    (x : Nat) : tyOf (typeMap eqs') x = tyOf (typeMap eqs) x := by
+  unfold tyOf
+  rw [typeMap_eq, typeMap_eq]
+  apply lookup_tmAcc_perm _ x hp
+  · apply lookup_tmAcc_perm _ x hp
+    · apply lookup_tmAcc_perm _ x hp rfl
+      intro e₁ h₁ e₂ h₂ t₁ t₂ m₁ m₂
+      unfold lhsWrites at m₁ m₂
+      cases hl₁ : e₁.lhs with
+      | var v₁ =>
+        cases hl₂ : e₂.lhs with
+        | var v₂ =>
+          rw [hl₁] at m₁; rw [hl₂] at m₂
+          simp only [List.mem_singleton, Prod.mk.injEq] at m₁ m₂
+          obtain ⟨rfl, rfl⟩ := m₁
+          obtain ⟨rfl, rfl⟩ := m₂
+          rw [hfun e₁ h₁ e₂ h₂ x hl₁ hl₂]
+        | deriv s t o => rw [hl₂] at m₂; cases m₂
+        | other => rw [hl₂] at m₂; cases m₂
+      | deriv s t o => rw [hl₁] at m₁; cases m₁
+      | other => rw [hl₁] at m₁; cases m₁
+    · intro e₁ _ e₂ _ t₁ t₂ m₁ m₂
+      unfold stateWrites at m₁ m₂
+      cases hl₁ : e₁.lhs <;> rw [hl₁] at m₁ <;> cases hl₂ : e₂.lhs <;> rw [hl₂] at m₂ <;> simp_all
+  · intro e₁ _ e₂ _ t₁ t₂ m₁ m₂
+    unfold freeWrites at m₁ m₂
+    cases hl₁ : e₁.lhs <;> rw [hl₁] at m₁ <;> cases hl₂ : e₂.lhs <;> rw [hl₂] at m₂ <;> simp_all
+
+/-- BEFORE the fix (`typeMapOld`: one loop, the last write stays) the role of a free variable that also has a defining
+    equation depended on where the ODE stood: `t = …` (variable 0) and `dx/dt = …` in the two orders -/
+theorem typeMapOld_order_dependent :
+    tyOf (typeMapOld [⟨0, .var 0, [], [], false⟩, ⟨1, .deriv 1 0 1, [], [], false⟩]) 0 = some .free ∧
+    tyOf (typeMapOld [⟨1, .deriv 1 0 1, [], [], false⟩, ⟨0, .var 0, [], [], false⟩]) 0 = some .computed ∧
+    tyOf (typeMap [⟨0, .var 0, [], [], false⟩, ⟨1, .deriv 1 0 1, [], [], false⟩]) 0 = some .free ∧
+    tyOf (typeMap [⟨1, .deriv 1 0 1, [], [], false⟩, ⟨0, .var 0, [], [], false⟩]) 0 = some .free := by decide
 
 /-- a variable that is the state or bound variable of an ODE and is not the left-hand side of an assignment is typed
     STATE or FREE -/
